@@ -158,7 +158,7 @@ def run_case(case, seed):
             M = R.analytic_centered(Mpre)
         else:
             M = np.asarray(m.data["input_data"].values)
-            re_ref = Mpre - Mpre.mean(axis=0, keepdims=True)
+            re_ref = Mpre  # the real part of the analytic signal is the preprocessed input itself
             if D.relerr(M.real, re_ref, scale=max(np.abs(re_ref).max(), 1e-300)) > 1e-9:
                 bad("hilbert_real_part", "real part of the analytic signal differs from the preprocessed anomalies")
         Vm = D.to_matrix(comps, ["lat", "lon"], ["mode"], ref)
@@ -236,7 +236,7 @@ def run_case(case, seed):
     if np.any(np.diff(evv) > tol * max(lam[0], 1e-300)):
         bad("descending", "explained variance not descending: %s" % evv)
     # (d) ratios against total variance, centring on
-    centred = case["center"] or mname in ("HilbertEOF", "ExtendedEOF")
+    centred = case["center"] or mname == "ExtendedEOF"
     if centred:
         tot = np.clip(R.eig_cov(M), 0, None).sum()
         e = np.abs(evrv - lam / tot).max()
